@@ -75,6 +75,8 @@ def ops_for(fnlabel):
     }
     if fnlabel in m:
         return m[fnlabel]
+    if fnlabel.startswith('dom::XmlAttr::as_expanded_name') or fnlabel.startswith('dom::XmlElement::'):
+        return ['xpath.query.names']
     if fnlabel in ('XmlElement::namespaces', 'XmlElement::in_scope_namespace', 'XmlElement::find_nameapce_uri', 'XmlElement::namespace_name', 'XmlAttribute::namespace_name'):
         return ['info.namespace_names']
     if fnlabel == 'XmlAttribute::normalized_value':
